@@ -42,8 +42,9 @@ const OracleFail = "ORACLE-FAIL:"
 
 // Case is one audited call sequence.
 type Case struct {
-	Key string             // stable short key: <entry point>|<input class>
-	Fn  func(g int) string // g = goroutine id (0..G-1); must be deterministic in (g)
+	Key  string             // stable short key: <entry point>|<input class>
+	Fn   func(g int) string // g = goroutine id (0..G-1); must be deterministic in (g)
+	PerG bool               // the digest depends on g (inputs differ per goroutine); otherwise one sequential run serves all g
 }
 
 // Sum digests observations: []byte as hex, errors by their text, everything else with %v.
@@ -94,7 +95,15 @@ func runSequential(G int, cases []Case) [][]string {
 		out[g] = make([]string, len(cases))
 		for i := range cases {
 			fn := cases[i].Fn
+			if g > 0 && !cases[i].PerG {
+				out[g][i] = out[0][i]
+				continue
+			}
+			t0 := time.Now()
 			out[g][i] = Safe(func() string { return fn(g) })
+			if g == 0 && os.Getenv("VERIF_RA_TIMING") != "" { // tuning aid
+				fmt.Fprintf(os.Stderr, "RA-TIMING %-60s %8.2fms %s\n", cases[i].Key, float64(time.Since(t0).Microseconds())/1000, clip(out[g][i]))
+			}
 		}
 	}
 	return out
